@@ -1,4 +1,4 @@
-(* GENERATED from the Go sources of /var/tmp/mrepo by /verif/tools/gen_model — do not edit. *)
+(* GENERATED from the Go sources of /repo by /verif/tools/gen_model — do not edit. *)
 From Coq Require Import String.
 From OtpV Require Import Prelude Sha GoSem Rfc4648 Errors Decoder Otp Ocra Utils Suite Url.
 Open Scope N_scope.
@@ -362,6 +362,8 @@ Definition OCRAInput_Validate (in_ : ocra_input) (cfg : suite_cfg) : res (option
   else (kj1 tt).
 
 Definition deriveRFC6287 (fuel0 : nat) (junk_rfc6287BufPool : bytes) (secret : bytes) (s : (option suite_cfg)) (input : ocra_input) : res (bytes * (option err)) :=
+  if (negb (is_some s)) then (Val ([], (Some (ESent ErrInvalidRawSuite))))
+  else
   do t1 <- deref s;
   do t2 <- SuiteConfig_Validate t1;
   let err_ := t2 in
@@ -415,6 +417,8 @@ Definition deriveRFC6287 (fuel0 : nat) (junk_rfc6287BufPool : bytes) (secret : b
   else (kj1 msg).
 
 Definition validateRFC6287 (fuel0 : nat) (junk_rfc6287BufPool : bytes) (code : bytes) (secret : bytes) (suite : (option suite_cfg)) (input : ocra_input) : res (bool * (option err)) :=
+  if (negb (is_some suite)) then (Val (false, (Some (ESent ErrInvalidRawSuite))))
+  else
   do t1 <- deref suite;
   do t2 <- SuiteConfig_Config t1;
   let cfg := t2 in
@@ -611,6 +615,19 @@ Definition IsKnownSuite (raw : bytes) : res bool :=
 Definition SuiteConfigFromRaws (rawSuite : bytes) : res suite_cfg :=
   Val (fst (lookup_go rawSuite)).
 
+Fixpoint ListSuites_loop1 (range_list : list bytes) (fuel0 : nat)   (suites : (list bytes)) (kx : (list bytes) -> res (list bytes)) {struct range_list} : res (list bytes) :=
+  match range_list with
+  | [] => kx suites
+  | name :: range_rest =>
+  let suites := (suites ++ [name]) in
+  ListSuites_loop1 range_rest fuel0  suites kx
+  end.
+
+Definition ListSuites (fuel0 : nat) : res (list bytes) :=
+  let suites := (@nil bytes) in
+  ListSuites_loop1 (map fst known_suites) fuel0 suites (fun (suites : (list bytes)) =>
+  Val suites).
+
 Fixpoint To8ByteBigEndian_loop1 (fuel : nat) (fuel0 : nat)   (out : bytes) (v : N) (i : Z) (kx : bytes -> N -> Z -> res bytes) {struct fuel} : res bytes :=
   match fuel with O => OutOfFuel | S fuel =>
   if (Z.leb 0%Z i) then (do out <- set_idx out i (wrap8 (N.land v 255%N));
@@ -668,6 +685,8 @@ Definition ParseDecimal64BigEndian (fuel0 : nat) (decStr : bytes) : res (bytes *
   Val (out, None)).
 
 Definition LeftPadHex (s : bytes) (totalLen : Z) : res bytes :=
+  if (Z.leb totalLen 0%Z) then (Val [])
+  else
   if (Z.leb totalLen (zlen s)) then (do t1 <- slice s (wrap_int64 (Z.sub (zlen s) totalLen)) (zlen s);
   Val t1)
   else
